@@ -208,7 +208,13 @@ func fault(i int, line string, r *rec, secretInput bool) bool {
 			send("\nPermission denied, please try again.\nPassword: ")
 		} else {
 			echo(i, line)
-			send(rejectText() + prompt)
+			if line == "enable" {
+				// what a router without enable secret answers (the word `password` in a refusal
+				// that is NOT a password prompt)
+				send("% No password set\n" + prompt)
+			} else {
+				send(rejectText() + prompt)
+			}
 		}
 		return true
 	case "warnreject":
